@@ -364,6 +364,10 @@ def serverHdr : B × B := (bServer, bSocketaceSlash ++ Gen.unknownVersion)
 def supportTls (cfg : SrvCfg) : Bool :=
   !cfg.secure && (cfg.cert == .ok || cfg.cert == .okerr)
 
+/-- the `Capabilities` header of the 200 response -/
+def capsHeaders (cfg : SrvCfg) : Headers :=
+  if supportTls cfg then [(Gen.capabilitiesHdr, Gen.capabilityStartTls)] else []
+
 /-- NewServerConnection on a reader; `tls left` = what crypto/tls reports for the server-side TLS
     handshake given the bytes still unread when it starts (a parameter: TLS itself is not modelled). -/
 def serverOn (cfg : SrvCfg) (tls : B → Bool) (fuel : Nat) (r : Rd) : SrvResult :=
@@ -376,8 +380,7 @@ def serverOn (cfg : SrvCfg) (tls : B → Bool) (fuel : Nat) (r : Rd) : SrvResult
       let v := negotiate (hget req.headers Gen.acceptsProtocolVersion)
       if v = [] then ⟨.refused 409, [⟨409, [serverHdr]⟩]⟩
       else
-        let w200 : Wrote := ⟨200, (if supportTls cfg then [(Gen.capabilitiesHdr, Gen.capabilityStartTls)] else [])
-                                    ++ [(bProtocolVersion, v), serverHdr]⟩
+        let w200 : Wrote := ⟨200, capsHeaders cfg ++ [(bProtocolVersion, v), serverHdr]⟩
         match readRequest fuel r1 with
         | .err => ⟨.closed, [w200]⟩
         | .panic => ⟨.panic, [w200]⟩
